@@ -2,7 +2,7 @@ CONSTANTS
   Cmds = {"read", "set", "trigger"}
   Objs = {"x", "y"}
   HA = 2
-  PA = 3
+  PA = 4
   HB = 3
   PB = 1
   BCmds = {"read", "set", "trigger"}
